@@ -23,6 +23,10 @@ use crate::{
 pub use alu::{AluInput, AluOutput, AluSelect};
 pub use board::{Board, InterruptSource, DAICR, DAISR, DASR};
 pub use bus::{Bus, MISR};
+#[cfg(any(kani, feature = "verif-hooks"))]
+pub use board::VerifBoardParts;
+#[cfg(any(kani, feature = "verif-hooks"))]
+pub use bus::VerifBusParts;
 pub use instruction::{Instruction, InstructionRegister};
 pub use microprogram_ram::{MicroprogramRam, Word};
 pub(crate) use raw::Interrupt;
